@@ -89,6 +89,11 @@ def scan_loop_discipline(t):
                     push = gp
                 elif par is not None and par[0] == "call" and par[1] == "String::push":
                     push = par
+                if push is None and par is not None and par[0] == "iflet" and gp is not None and gp[0] == "if" and len(gp) == 4 and gp[3] == ("unit",):
+                    # if let Some(c) = expr.next() { buf.push(c) }   (after a successful peek the next character exists)
+                    e_ = M(("pvar", "Option::Some", ("bind", "?c")), par[1])
+                    if e_ is not None and isinstance(gp[2], tuple) and len(gp[2]) == 4 and gp[2][:2] == ("call", "String::push") and gp[2][3] == ("var", e_["?c"]):
+                        push = gp[2]
                 if push is None:
                     problems.append("a character is consumed without being pushed: %s" % T.show(par)[:80])
                     return
@@ -99,14 +104,20 @@ def scan_loop_discipline(t):
                         c = p[1]
                         for s2 in subterms(c):
                             if isinstance(s2, tuple) and len(s2) > 1 and s2[0] == "call" and isinstance(s2[1], str):
-                                if s2[1] not in ("char::is_ascii_digit", "<&char as cmp::PartialEq>::eq", "<char as cmp::PartialEq>::eq", "Chars.peek"):
+                                if s2[1] not in ("char::is_ascii_digit", "<&char as cmp::PartialEq>::eq", "<char as cmp::PartialEq>::eq", "Chars.peek", "Chars.next"):
                                     problems.append("push guarded by a non-character condition: %s" % s2[1])
         walk_ctx(lp, v)
         # pushes whose argument is not a consumed character
         for s2 in subterms(lp):
             if isinstance(s2, tuple) and len(s2) == 4 and s2[0] == "call" and s2[1] == "String::push":
                 a = s2[3]
-                if not (unify(NEXT, a) is not None or (isinstance(a, tuple) and a[0] == "try" and unify(NEXT, a[1]) is not None)):
+                bound_next = False
+                if isinstance(a, tuple) and a[0] == "var":
+                    for s3 in subterms(lp):
+                        if isinstance(s3, tuple) and len(s3) == 4 and s3[0] == "if" and isinstance(s3[1], tuple) and s3[1][0] == "iflet" and unify(NEXT, s3[1][2]) is not None \
+                                and M(("pvar", "Option::Some", ("bind", a[1])), s3[1][1]) is not None:
+                            bound_next = True
+                if not (unify(NEXT, a) is not None or (isinstance(a, tuple) and a[0] == "try" and unify(NEXT, a[1]) is not None) or bound_next):
                     problems.append("push of something other than the consumed character: %s" % T.show(a)[:60])
     return (not problems), "; ".join(problems[:3])
 
@@ -178,7 +189,7 @@ def check_literals(run, m, tag):
     if ev != "eval_i64":
         r = lm.run(".5)")
         ok = r.get("kind") == "scan"
-        pref = ok and any(s == ("call", "<str as std::string::ToString>::to_string", ("str", "0")) or s == ("str", "0") for s in subterms(r["term"]))
+        pref = ok and any(s in (("call", "<str as std::string::ToString>::to_string", ("str", "0")), ("str", "0"), ("str", "0."), ("call", "<str as std::string::ToString>::to_string", ("str", "0."))) for s in subterms(r["term"]))
         run.ob(ok and pref, "literal-scan|%s|dot" % ev, "%s `.DIGITS` is scanned as one literal, converted as `0.DIGITS`" % tag, w, str(r.get("kind")))
         r0 = lm.run(".)")
         run.ob(r0.get("kind") == "none", "literal-scan|%s|lone-dot" % ev, "%s a lone `.` is rejected" % tag, w, str(r0.get("kind")))
